@@ -449,8 +449,11 @@ def finish(ctx, level, proofs, coverage, failures=(), broken=(), assumptions=(),
               assumptions=list(assumptions), wall_s=round(time.time() - ctx.t0, 2), violations=viol)
     if extra:
         ev.update(extra)
-    os.makedirs(EVID, exist_ok=True)
-    with open(os.path.join(EVID, pid + ".json"), "w") as f:
+    # evidence/<ID>.json must describe runs against /repo itself: runs against a scratch tree (VERIF_REPO=...,
+    # used to try mutants/seeded changes) write their record elsewhere.
+    evdir = EVID if os.path.realpath(REPO) == "/repo" else os.path.join(REPLAYS, "evidence-scratch")
+    os.makedirs(evdir, exist_ok=True)
+    with open(os.path.join(evdir, pid + ".json"), "w") as f:
         json.dump(ev, f, indent=1, default=str)
     if viol == 0:
         print("OK property=%s tier=%s obligations=%d discharged=%d evaluations=%d wall=%.1fs" % (
